@@ -237,7 +237,10 @@ def space(tier):
             prof = [[cid, bytes([rng.choice([0, 1, 2, 3, 4, 5, 6, 7, 9, 100, rng.randrange(256)])]).hex()]
                     for cid in rng.sample(ids, rng.randint(1, 8))]
             if rng.random() < 0.3:
-                prof.append([0x0225, bytes([rng.randrange(256) for _ in range(7)]).hex()])
+                prof.append([0x0225, bytes([rng.randrange(256) for _ in range(rng.choice([7, 7, 6, 3]))]).hex()])
+            if rng.random() < 0.3:
+                prof.insert(rng.randrange(len(prof) + 1), [rng.choice([0x0040, 0x0300, 0x0233]), "01"])
+            rng.shuffle(prof)            # record order matters to a parser
         if prof is not None:
             p["caps_profile"] = prof
         return p
